@@ -4,7 +4,9 @@ package vc
 
 import (
 	"fmt"
+	"go/ast"
 	"go/constant"
+	"go/parser"
 	"go/token"
 	"go/types"
 	"strconv"
@@ -59,13 +61,53 @@ func (f *frame) resolveType(text string, pkg *types.Package) types.Type {
 	if t, ok := f.eng().typeCache[pkg.Path()+"|"+text]; ok {
 		return t
 	}
-	// qualified identifiers refer to imports of pkg by name
-	tv, err := types.Eval(f.eng().Prog.Fset, f.eng().evalPkg(pkg), token.NoPos, text)
-	if err != nil || tv.Type == nil {
-		cfail("cannot resolve type %q in %s: %v", text, pkg.Path(), err)
+	ex, err := parser.ParseExpr(text)
+	if err != nil {
+		cfail("cannot parse type %q: %v", text, err)
 	}
-	f.eng().typeCache[pkg.Path()+"|"+text] = tv.Type
-	return tv.Type
+	t := f.typeOfAST(ex, pkg, text)
+	f.eng().typeCache[pkg.Path()+"|"+text] = t
+	return t
+}
+
+func (f *frame) typeOfAST(ex ast.Expr, pkg *types.Package, text string) types.Type {
+	switch x := ex.(type) {
+	case *ast.Ident:
+		if obj := pkg.Scope().Lookup(x.Name); obj != nil {
+			if tn, ok := obj.(*types.TypeName); ok {
+				return tn.Type()
+			}
+		}
+		if obj := types.Universe.Lookup(x.Name); obj != nil {
+			if tn, ok := obj.(*types.TypeName); ok {
+				return tn.Type()
+			}
+		}
+	case *ast.SelectorExpr:
+		if id, ok := x.X.(*ast.Ident); ok {
+			if p := f.findImport(pkg, id.Name); p != nil {
+				if tn, ok := p.Scope().Lookup(x.Sel.Name).(*types.TypeName); ok {
+					return tn.Type()
+				}
+			}
+		}
+	case *ast.StarExpr:
+		return types.NewPointer(f.typeOfAST(x.X, pkg, text))
+	case *ast.ArrayType:
+		if x.Len == nil {
+			return types.NewSlice(f.typeOfAST(x.Elt, pkg, text))
+		}
+	case *ast.MapType:
+		return types.NewMap(f.typeOfAST(x.Key, pkg, text), f.typeOfAST(x.Value, pkg, text))
+	case *ast.InterfaceType:
+		if x.Methods == nil || len(x.Methods.List) == 0 {
+			return types.NewInterfaceType(nil, nil)
+		}
+	case *ast.ParenExpr:
+		return f.typeOfAST(x.X, pkg, text)
+	}
+	cfail("cannot resolve type %q in %s", text, pkg.Path())
+	return nil
 }
 
 func (f *frame) trans(e CE, env *Env) TV {
@@ -262,7 +304,7 @@ func (f *frame) localAt(name string, env *Env) (TV, bool) {
 			}
 			id, ok := d.Expr.(interface{ String() string })
 			_ = id
-			if o := d.Object(); o != nil && o.Name() == name {
+			if o := d.Object(); o != nil && o.Name() == name && types.Identical(o.Type(), d.X.Type()) {
 				if best == nil || best.Block() == b || best.Block().Dominates(b) {
 					best = d
 				}
@@ -668,6 +710,22 @@ func (f *frame) transCall(x *CCall, env *Env) TV {
 			return TV{T: f.bytesToStr(env.st, v.T), S: "Str", Ty: types.Typ[types.String]}
 		}
 		cfail("string() of sort %s", v.S)
+	case "mk":
+		// mk(T, f0, f1, ...): struct value of type T with positional fields
+		if len(x.Args) < 1 {
+			cfail("mk needs a type")
+		}
+		ty := f.resolveType(x.Args[0].String(), env.pkg)
+		st, ok := ty.Underlying().(*types.Struct)
+		if !ok || st.NumFields() != len(x.Args)-1 {
+			cfail("mk(%s, ...): wrong number of fields", x.Args[0])
+		}
+		si := f.sr().structSort(ty)
+		var fs []string
+		for i := 0; i < st.NumFields(); i++ {
+			fs = append(fs, f.coerceTV(f.trans(x.Args[i+1], env), si.fsorts[i]))
+		}
+		return TV{T: si.mk(fs), S: si.sort, Ty: ty}
 	case "inset":
 		// inset(chars, c): byte c occurs in string chars (expanded for literals)
 		need(2)
